@@ -30,7 +30,23 @@ def emit(s):
 
 
 def hexs(s):
-    return "".join("%02x" % ord(ch) for ch in s)
+    return "".join("%02x" % b for b in s.encode("utf-8"))
+
+
+def rand_text(n):
+    """n characters: ASCII letters, fullwidth (double-width) letters, letters with a combining acute accent."""
+    kind = rng.random()
+    out = []
+    for _ in range(n):
+        x = rng.random()
+        if kind < 0.35 or x < 0.55:
+            out.append(chr(rng.randint(65, 90)))
+        elif x < 0.85:
+            out.append(chr(0xff21 + rng.randint(0, 25)))          # double-width
+        else:
+            out.append(chr(rng.randint(97, 122)) + "\u0301")      # base + combining
+    stats["wide_texts"] = stats.get("wide_texts", 0) + (1 if any(ord(ch) > 127 for ch in "".join(out)) else 0)
+    return "".join(out)
 
 
 class Hist:
@@ -128,7 +144,7 @@ def adversarial_prog(h, w):
         elif x < 0.50:
             ins.append("e:%d:%d:%d:%d" % (rng.randint(-2, 1), rng.randint(-2, 1), rng.randint(-1, 3), rng.randint(-1, 3)))
         elif x < 0.68:
-            txt = "".join(chr(rng.randint(65, 90)) for _ in range(rng.choice([1, 2, 5, 12, 40])))
+            txt = rand_text(rng.choice([1, 2, 5, 12, 40]))
             if rng.random() < 0.5:
                 ins.append("T:%d:%d:%s" % (rng.randint(-2, n + 1), rng.randint(-6, k + 2), hexs(txt)))
             else:
@@ -323,7 +339,7 @@ if a.tier == "exhaustive":
                 emit("win 2 0 0 3 3 4 - pen=3:2:1")
                 emit("win 3 1 0 2 2 4 - pen=4:x:x")
                 if C02:
-                    emit("beh 1 E:-5:-5:20:20 T:0:-2:4142434445464748")
+                    emit("beh 1 E:-5:-5:20:20 T:0:-1:" + hexs("\uff21\uff22B\uff23\uff24\uff25"))
                     emit("beh 3 K c:0:-1:120")
                 emit("flush")
                 for o in ops: emit(o)
